@@ -210,7 +210,7 @@ type Evaluator struct {
 	vc    *VC
 	pkg   *types.Package
 	sigs  map[string]FuncSig
-	deref func(p Ptr, old bool) Val // read memory through a pointer
+	deref func(p Ptr, old bool) Val   // read memory through a pointer
 	slice func(s *SliceV, old bool) T // current array term of a slice
 	// rs terms seen (for axiom instantiation)
 	onRS func(v, e T)
